@@ -35,12 +35,23 @@ class Gen(npx.Stream):
         self.requests = []
 
     def normal(self, loc=0.0, scale=1.0, size=None):
+        """the prepared arrays are one stream of consecutive draws: a request of any shape takes the next prod(shape)
+        values (NumPy's Generator fills a block request with consecutive draws)"""
         self.requests.append(size)
-        a = self.arrays[self.k]
-        self.k += 1
-        shape = (size,) if isinstance(size, int) else tuple(size)
-        assert numpy.shape(a) == shape, (numpy.shape(a), shape)
-        return core.obj(a)
+        shape = () if size is None else ((size,) if isinstance(size, (int, numpy.integer)) else tuple(int(x) for x in size))
+        if not hasattr(self, "flat"):
+            self.flat = [e for a in self.arrays for e in numpy.asarray(a, dtype=object).flat]
+        n = int(numpy.prod(shape)) if shape else 1
+        vals = self.flat[self.k:self.k + n]
+        assert len(vals) == n, ("more draws requested than prepared", self.k, n, len(self.flat))
+        self.k += n
+        out = numpy.empty(n, dtype=object)
+        for i, v in enumerate(vals):
+            out[i] = Sym.lift(v) * scale + loc if (scale != 1.0 or loc != 0.0) else v
+        return core.obj(out.reshape(shape)) if shape else out[0]
+
+    def standard_normal(self, size=None, dtype=None, out=None):
+        return self.normal(size=size)
 
 
 P = dict(r0=var("r0"), L0=var("L0"), l0=var("l0"), delta=var("delta"))
@@ -96,9 +107,16 @@ def real_jacobian(N, vals, sh=False):
             self.k = 0
 
         def normal(self, loc=0.0, scale=1.0, size=None):
-            a = self.arrays[self.k]
-            self.k += 1
-            return numpy.array(a, dtype=float)
+            shape = () if size is None else ((size,) if isinstance(size, (int, numpy.integer)) else tuple(int(x) for x in size))
+            if not hasattr(self, "flat"):
+                self.flat = numpy.concatenate([numpy.asarray(a, dtype=float).ravel() for a in self.arrays])
+            n = int(numpy.prod(shape)) if shape else 1
+            v = self.flat[self.k:self.k + n]
+            self.k += n
+            return v.reshape(shape) * scale + loc if shape else float(v[0]) * scale + loc
+
+        def standard_normal(self, size=None, dtype=None, out=None):
+            return self.normal(size=size)
     shapes = [(N, N), (N, N)]
     cols = []
     for which in range(2):
@@ -267,8 +285,15 @@ def case_ft(ctx, N):
             self.k = 0
 
         def normal(self, loc=0.0, scale=1.0, size=None):
-            self.k += 1
-            return (xa if self.k == 1 else xb).copy()
+            shape = (size,) if isinstance(size, (int, numpy.integer)) else tuple(int(x) for x in size)
+            flat = numpy.concatenate([xa.ravel(), xb.ravel()])
+            n = int(numpy.prod(shape))
+            v = flat[self.k:self.k + n]
+            self.k += n
+            return v.reshape(shape) * scale + loc
+
+        def standard_normal(self, size=None, dtype=None, out=None):
+            return self.normal(size=size)
     ufs = harness.default_ufs()
     ufs["pow_11_6"] = lambda x: x ** (11. / 6)
     ctx.validate("ft_phase_screen", evaluate(s1, a, ufs), lambda: ps.ft_phase_screen(vals["r0"], N, vals["delta"], vals["L0"], vals["l0"], seed=G()), tol=1e-6)
